@@ -338,6 +338,13 @@ Definition dom_delta (d : delta) : bool :=
 (* ------------------------------------------------------------------ *)
 Definition nonneg_int (k : atom) : bool :=
   match int_of_atom k with Some z => Z.leb 0 z | None => false end.
+(* the paths of the items added to iterables end in a non-negative int (True / False included): the case for every
+   delta that comes from a diff (list positions) *)
+Definition ends_nonneg (p : path) : bool :=
+  match p with [] => true | _ => nonneg_int (key_atom (last p (PIdx 0))) end.
+Definition nonneg_paths (d : delta) : bool :=
+  forallb (fun pv => ends_nonneg (fst pv)) (d_iadd d) && forallb (fun m => ends_nonneg (snd (fst m))) (d_moved d).
+
 
 (* an item-added step is insert-regular in state s: no insertion is attempted (insert=False, or elem >= len(obj)
    evaluates without raising), or the object is a list and elem a non-negative int (True/False included) *)
